@@ -129,7 +129,87 @@ class RuleContext:
         if found < minimum:
             raise AnalysisError(f"{rule}: found {found} {what}, expected at least {minimum} (anchor vanished or unmodelled)")
 
+    # -- rule groups on normal forms -----------------------------------------------------------------------------------
+    def _snap(self):
+        return (len(self.obligations), set(self._seen_keys), len(self.group_errors), len(self.floors), len(self.exhaustive_spaces),
+                len(self.notes), self.duplicates)
+
+    def _restore(self, sn):
+        del self.obligations[sn[0]:]
+        self._seen_keys = set(sn[1])
+        del self.group_errors[sn[2]:]
+        del self.floors[sn[3]:]
+        del self.exhaustive_spaces[sn[4]:]
+        del self.notes[sn[5]:]
+        self.duplicates = sn[6]
+
+    def _failed_since(self, sn) -> bool:
+        if len(self.group_errors) > sn[2]:
+            return True
+        known = getattr(self, "_known_cache", None)
+        if known is None:
+            known = self._known_cache = [k for k in load_known() if k.get("property") == self.prop and k.get("status") == "known"]
+        for o in self.obligations[sn[0]:]:
+            if o.status == "undecidable":
+                return True
+            if o.status == "violated" and not any(k.get("rule") == o.rule and k.get("file") == o.file and k.get("qualname") == o.qualname
+                                                  and k.get("construct") == o.construct for k in known):
+                return True
+        return False
+
     def guard(self, fn, *args, **kwargs):
+        """Run one rule group (see _guard1).  When the group does not pass on the tree as written, it is run again on
+        semantics-preserving normal forms of the package (sa/normalize.py); it is discharged if it passes on one of them,
+        otherwise the findings of the run on the tree as written stand."""
+        depth = getattr(self, "_nf_depth", 0)
+        if depth >= 2 or os.environ.get("SA_NO_NORMAL_FORMS"):
+            return self._guard1(fn, *args, **kwargs)
+        sn = self._snap()
+        before = set(self.analysed_functions)
+        res = self._guard1(fn, *args, **kwargs)
+        if not self._failed_since(sn) or self.prog is None or not hasattr(self.prog, "modules"):
+            return res
+        # only normal forms that change a module this group looked at can make a difference
+        mods = {f.split(":")[0] for f in (self.analysed_functions - before)} or {f.split(":")[0] for f in self.analysed_functions}
+        from .normalize import VARIANTS, variant_program
+        kept = (self.obligations[sn[0]:], set(self._seen_keys), self.group_errors[sn[2]:], self.floors[sn[3]:],
+                self.exhaustive_spaces[sn[4]:], self.notes[sn[5]:], self.duplicates)
+        # a nested group chooses its normal form independently of the enclosing one: always a normal form of the tree as written
+        prog_here = self.prog
+        prog0 = getattr(self, "_base_prog", None) or self.prog
+        outer_base = getattr(self, "_base_prog", None)
+        self._base_prog = prog0
+        for v in VARIANTS:
+            try:
+                vp = variant_program(prog0, v, mods)
+            except Exception:  # noqa: BLE001 - a normal form that cannot be built is skipped
+                vp = None
+            if vp is None:
+                continue
+            self._restore(sn)
+            self.prog, self._nf_depth = vp, depth + 1
+            try:
+                res_v = self._guard1(fn, *args, **kwargs)
+            finally:
+                self.prog, self._nf_depth = prog_here, depth
+            if not self._failed_since(sn):
+                self._base_prog = outer_base
+                self.notes.append(f"{getattr(fn, '__name__', 'rule group')}: not recognised on the tree as written, discharged on its "
+                                  f"normal form '{v}' (sa/normalize.py)")
+                self.normal_forms_used = getattr(self, "normal_forms_used", 0) + 1
+                return res_v
+        self._base_prog = outer_base
+        self._restore(sn)
+        self.obligations.extend(kept[0])
+        self._seen_keys = kept[1]
+        self.group_errors.extend(kept[2])
+        self.floors.extend(kept[3])
+        self.exhaustive_spaces.extend(kept[4])
+        self.notes.extend(kept[5])
+        self.duplicates = kept[6]
+        return res
+
+    def _guard1(self, fn, *args, **kwargs):
         """Run one rule group; an AnalysisError (vanished anchor / unmodelled construct / floor) or a crash inside it
         becomes an `undecidable` obligation (exit 2 unless a violation is found elsewhere) and the other groups still run."""
         import traceback
